@@ -12,7 +12,7 @@ def run(ctx: Ctx):
     ctx.assumptions = ['exact ties in the measure may legitimately be ordered differently after a column permutation: such pairs are generated rarely (continuous noise)']
     sc.design(ctx)
     ctx.notes['design_invariants'] = ['Inv_C15_Top (the strictly best-ranked feature is returned)', 'the abstract measure table is unchanged by the re-encodings']
-    n = 260 if ctx.tier == 'quick' else 2500
+    n = 600 if ctx.tier == 'quick' else 2500
     base = ctx.seed * 1_000_003
     cases = sc.gen('reencode_case', [base + i for i in range(n)])
     jr = tlc.judge('ReencodeTrace', cases, strip=sc.STRIP, shard_size=200)
@@ -33,7 +33,7 @@ def run(ctx: Ctx):
                     clause=cl, what=f'{c["id"]} ({c["meta"]["task"]}, {c["meta"]["measures"]}): original selection {c["ref"]["kept"]}; after re-encoding: {bad[:3]}',
                     sig=sig, replay=c['meta']))
     ctx.notes['variants_per_kind'] = kinds
-    sc.select_cases(ctx, ['C15_'], 400, 4000)
+    sc.select_cases(ctx, ['C15_'], 800, 4000)
 
 
 def replay(ctx: Ctx, rep: dict):
